@@ -14,7 +14,16 @@ the last equality) in Containment.v, fixed_rect_constraints_bind in VarLayout.v;
 SeparationConstraints expanded per dimension) and the `vars` correspondence (F lines: the idle SeparationConstraints found among
 ConstrainedFDLayout::extraConstraints, by creator tag); V: container rectangles with children pulled through each of the four walls
 by short edges to outside nodes, nested variants, checked by the extracted members_inside_rectb (every member inside the container
-rectangle inflated by the padding) plus the ordinary pair / member-box obligations (container vs. its own contents exempt)."""
+rectangle inflated by the padding) plus the ordinary pair / member-box obligations (container vs. its own contents exempt).
+Call sequences (seeded change C08-6, DESIGN 9.16): model Cola/NonOverlapExemptModel.v of NonOverlapConstraintExemptions (std::set<ShapePair>, smaller id
+first) and of the two members ConstrainedFDLayout::setAvoidNodeOverlaps writes; theorems C08_exempt_after_calls (after ANY sequence of calls
+shapePairIsExempt(a,b) <=> a != b and a group of the LAST call holds both), _sym, C08_options_after_calls, C08_obliged_pairs_after_calls,
+C08_add_shape_uses_last_call, C08_exempt_set_sorted and the refutations for the variant without m_exempt_pairs.clear(); tie C (`exempt` harness mode):
+after every call of a sequence shapePairIsExempt for every ordered pair + getExemptPairs() + the flag, object driven directly and through the layout
+object - exhaustive for n = 3 (<= 2 groups, <= 2 calls) and n = 4 (single-group calls, <= 3 calls), random for larger n / ids up to 65535; V: family
+'callseq' = 2-3 setAvoidNodeOverlaps calls with different group lists (disjoint / shrinking / growing / emptied / true-false-true / false first / off
+last) before makeFeasible() and between makeFeasible() and run(), nodes piled up with short edges on every pair an earlier call exempted; the pair
+obligation is obliged_pairs of the extracted model (exemptions in force = LAST call)."""
 import os, json, math
 from fractions import Fraction
 from vlib import common as C
@@ -1126,7 +1135,11 @@ def run(tier):
         'clusters count as members of the enclosing clusters; members_inside_fixed_rect needs the solver to satisfy the generated '
         'equalities (C01) - validated on the real result by members_inside_rectb (tolerance as above); known HEAD defect '
         'fixedrect_child_cluster_bounds_stale (KNOWN_FINDINGS.txt) is classified by a predicate, escapes from a container are never '
-        'attributed to it']
+        'attributed to it',
+        'family callseq: the exemptions and the flag in force at makeFeasible() / run() are those of the LAST setAvoidNodeOverlaps call made before '
+        'it; the pair obligation is checked on the final result against the last call of the whole sequence (a call between makeFeasible() and '
+        'run() that withdraws an exemption obliges run() to separate the pair - C08_step_establishes; observed to hold on HEAD); node ids < 65536 '
+        '(ShapePair stores unsigned short)']
     cpp = C.build_harness('c08_no', ['libcola', 'libvpsc'], 'exc')
     ml = C.ocaml_build('c08model', 'C08model.v', 'c08_driver.ml', 'c08_model.ml')
     ncorr = 1500 if tier == 'quick' else 12000
@@ -1137,7 +1150,8 @@ def run(tier):
     nseq = 300 if tier == 'quick' else 2500
     lcases, viols, stats = layouts(rng.fork(), nlay, cpp, ml, ncc=ncc, nfix=nfix, nseq=nseq)
     eviols, estats = exempt_correspondence(rng.fork(), 700 if tier == 'quick' else 6000, cpp, ml)
-    viols = viols + eviols
+    real_lay = [v for v in viols if not v.get('machinery')]
+    viols = real_lay[:6] + eviols + real_lay[6:] + [v for v in viols if v.get('machinery')]
     vdiffs, vstats = varlayout_correspondence([c for c in lcases if c.get('kind') in ('clusters', 'clusters+cc', 'fixedrect') or c.get('ccs')
                                                or c.get('clusters')], cpp, ml)
     diffs = diffs + vdiffs
@@ -1214,10 +1228,16 @@ META = {
                 'cluster pair in the final layout are validated on real makeFeasible()+run() results by extracted checkers proved equivalent to the '
                 'declarative conditions. Variable index layout: the cluster variable ids stored in the containment constraints point at that cluster\'s '
                 'own boundary variables in the variable list built before every projection, for any user constraints in either dimension '
-                '(C08_stored_id_points_at_cluster; model tied by the `vars` correspondence).',
+                '(C08_stored_id_points_at_cluster; model tied by the `vars` correspondence). Repeated setAvoidNodeOverlaps() calls: after ANY '
+                'sequence of calls the exempt pairs are exactly the distinct pairs sharing a group of the LAST call and the flag is the last '
+                'one (C08_exempt_after_calls, _sym, C08_options_after_calls, C08_obliged_pairs_after_calls, C08_add_shape_uses_last_call; '
+                'refuted for the variant without clear(): C08_exempt_after_calls_noclear_refuted, C08_obliged_pairs_noclear_refuted), model '
+                'tied by the `exempt` correspondence (exhaustive small n + random), V-family callseq checks real layouts against the model\'s '
+                'pair obligation.',
         'design_ref': 'DESIGN.md 5.8'},
     'level_note': 'Trusted: Coq kernel; hand-written models NonOverlapModel.v / ContainmentModel.v / VarLayoutModel.v (tie = exact comparison of generated constraint multisets - non-overlap, containment, fixed-rectangle equalities - with '
-                  'the compiled code on random dyadic rectangle sets, groups, exemptions, clusters, every run); extraction, OCaml/C++/Python drivers; '
+                  'the compiled code on random dyadic rectangle sets, groups, exemptions, clusters, every run; NonOverlapExemptModel.v: exact comparison of every '
+                  'shapePairIsExempt answer and the stored set after every call of a sequence); extraction, OCaml/C++/Python drivers; '
                   'Rectangle borders 0; exact-rational model of binary64. No axioms. Domain of the V-run as in the property: nothing reported unsatisfiable.',
     'technique': 'Coq proof over hand-written models + exact generator correspondence + extracted verified checkers on real layouts',
 }
